@@ -239,6 +239,27 @@ def exchange_mtu_request(client_mtu: int, mtu: int, smax: int) -> bool:
         return _ok(dev, b, 0x0A)
 
 
+@harness(pre=['249 <= l1 <= 258'], family='large', kernels=K, timeout=(60, 180),
+         grid={'mtu': [258, 300, 517], 'op': ['read', 'bytype', 'multi', 'multivar', 'blob']},
+         bounds='large MTUs 258/300/517 with value lengths 249..258 (the 251/253-byte caps of the list responses and the one-byte length field)')
+def large_values(l1: int, mtu: int, op: str) -> bool:
+    with detloop.running() as loop:
+        dev, server, c1, c2 = _db(l1, 4)
+        b = StubBearer(mtu)
+        if op == 'read':
+            req, code = _B(0x0A) + struct.pack('<H', c1.handle), 0x0A
+        elif op == 'bytype':
+            req, code = _B(0x08) + struct.pack('<HHH', 1, 0xFFFF, 0x2A00), 0x08
+        elif op == 'multi':
+            req, code = _B(0x0E) + struct.pack('<HH', c1.handle, c2.handle), 0x0E
+        elif op == 'multivar':
+            req, code = _B(0x20) + struct.pack('<HH', c1.handle, c2.handle), 0x20
+        else:
+            req, code = _B(0x0C) + struct.pack('<HH', c1.handle, 3), 0x0C
+        feed(server, b, req, loop)
+        return _ok(dev, b, code)
+
+
 # ------------------------------------------------------------------------------------------
 # every opcode: requests without a handler get "not supported", everything else is silent
 def _min_len(op):
